@@ -97,6 +97,11 @@ class PrefixParseUnbounded(BaseException):
     """the prefix parse inside predict() exceeded its step budget (counted in the parser's own code)"""
 
 
+class PrefixParseTooAmbiguous(BaseException):
+    """more partial trees than the budget, but none larger than a tree of this history can be: exponentially
+    many derivations (`<s>* ; <s> ::= <x>{1,}`), finite - inconclusive, skipped, never judged"""
+
+
 def _on_alarm(*_a):
     raise PredictTimeout()
 
@@ -108,7 +113,13 @@ PREDICT_TIMEOUT_S = 90.0
 # Terminating cases of this check stay below 150 trees and 20k admissions (histories of <= 9 messages).
 MAX_PARTIAL_TREES = 600
 MAX_ADMISSIONS = 400_000
-_STEPS = {"trees": 0, "adds": 0, "armed": False}
+# A partial tree of a history of n messages has at most O(n * grammar size) nodes (every message hangs on a path
+# no longer than the grammar is deep per unfolding, unfoldings consume messages); the non-terminating prefix
+# parses yield EVER LARGER trees (an iteration that matched nothing is stacked again and again: 2.5 nodes per
+# yielded tree).  Over the tree budget + a tree beyond the size bound = unbounded; over the tree budget with
+# all trees within the bound = exponentially ambiguous but finite.
+SIZE_FACTOR = 6
+_STEPS = {"trees": 0, "adds": 0, "max_size": 0, "size_bound": 10 ** 9, "armed": False}
 
 
 def _install_step_counters():
@@ -124,8 +135,11 @@ def _install_step_counters():
         for item in orig_consume(self, *a, **kw):
             if _STEPS["armed"]:
                 _STEPS["trees"] += 1
+                _STEPS["max_size"] = max(_STEPS["max_size"], item[0].size())
                 if _STEPS["trees"] > MAX_PARTIAL_TREES:
-                    raise PrefixParseUnbounded()
+                    if _STEPS["max_size"] > _STEPS["size_bound"]:
+                        raise PrefixParseUnbounded()
+                    raise PrefixParseTooAmbiguous()
             yield item
 
     def add(self, state):
@@ -163,7 +177,7 @@ def mset(js) -> list:
 # ------------------------------------------------------------------------------------------------
 
 def explore(grammar, cases: list[dict], max_trees: int = 2, check_complete_trees: bool = True,
-            has_nullable_nt: bool = False) -> dict:
+            has_nullable_nt: bool = False, grammar_nodes: int = 50) -> dict:
     """walk the model's breadth-first list of prefixes on the real forecaster"""
     from fandango.io.navigation.packetforecaster import PacketForecaster
     from harness.impl import proto_real as pr
@@ -209,17 +223,24 @@ def explore(grammar, cases: list[dict], max_trees: int = 2, check_complete_trees
                 break
             try:
                 signal.setitimer(signal.ITIMER_REAL, PREDICT_TIMEOUT_S)
-                _STEPS.update(trees=0, adds=0, armed=True)
+                _STEPS.update(trees=0, adds=0, max_size=0, armed=True,
+                              size_bound=SIZE_FACTOR * (len(h) + 2) * max(grammar_nodes, 10))
                 try:
                     opts, real_complete, res = pr.real_predict(fc, t)
                 finally:
                     _STEPS["armed"] = False
                     signal.setitimer(signal.ITIMER_REAL, 0)
+            except PrefixParseTooAmbiguous:
+                out["timeouts"] += 1
+                out["too_ambiguous"] = out.get("too_ambiguous", 0) + 1
+                fc = PacketForecaster(grammar)
+                continue
             except PrefixParseUnbounded:
                 # the parser (not the forecasting code) exceeded its step budget
                 out["timeouts"] += 1
                 out["mismatch"].append({"h": [jm(m) for m in h], "kind": "parser-unbounded",
-                                        "trees": _STEPS["trees"], "adds": _STEPS["adds"]})
+                                        "trees": _STEPS["trees"], "adds": _STEPS["adds"],
+                                        "max_tree_size": _STEPS["max_size"], "size_bound": _STEPS["size_bound"]})
                 fc = PacketForecaster(grammar)      # the parser object is in an undefined state
                 continue
             except PredictTimeout:
@@ -379,6 +400,17 @@ def nullable_head_in_open_rep(gj: dict) -> bool:
     return any(walk(b) for b in rules.values())
 
 
+def ir_nodes(gj: dict) -> int:
+    def cnt(n):
+        k = n[0]
+        if k in ("alt", "cat"):
+            return 1 + sum(cnt(x) for x in n[2])
+        if k == "rep":
+            return 1 + cnt(n[3])
+        return 1
+    return sum(cnt(r[1]) for r in gj["rules"])
+
+
 def run_grammar(job: dict) -> dict:
     """job: {idx, spec, depth, limit, cap|None, slices: [[keep…], ignore_receivers]…}"""
     t0 = time.time()
@@ -404,7 +436,7 @@ def run_grammar(job: dict) -> dict:
         res["n_prefixes"] = len(ans["cases"])
         res["n_complete"] = sum(1 for c in ans["cases"] if c["complete"])
         res["max_positions"] = max((c["positions"] for c in ans["cases"]), default=0)
-        res["explore"] = explore(grammar, ans["cases"], has_nullable_nt=nullable_nt(gj))
+        res["explore"] = explore(grammar, ans["cases"], has_nullable_nt=nullable_nt(gj), grammar_nodes=ir_nodes(gj))
         # ---- slicing
         for keep, ign in job.get("slices", []):
             sres: dict = {"keep": keep, "ignore_receivers": ign}
@@ -432,7 +464,7 @@ def run_grammar(job: dict) -> dict:
                 sres["certs"] = sans["certs"]
                 if sans["certs"]["rank_ok"] and sans["certs"]["productive"] and sans["certs"]["msg_only"]:
                     sres["explore"] = explore(sliced, sans["cases"], check_complete_trees=True,
-                                              has_nullable_nt=nullable_nt(sgj))
+                                              has_nullable_nt=nullable_nt(sgj), grammar_nodes=ir_nodes(sgj))
                     # visible part of a prefix of G is a prefix of the sliced spec; of an interaction, an interaction
                     def vis(m):
                         if ign:
@@ -637,7 +669,8 @@ def classify(rec: dict, nullable_head: bool = False) -> tuple[Optional[str], Opt
     if rec.get("kind") == "parser-unbounded":
         return (SIG_PARSER_UNBOUNDED if nullable_head else SIG_PARSER_UNBOUNDED_OTHER,
                 f"predict after {rec['h']}: the prefix parse (IterativeParser, ParsingMode.INCOMPLETE) exceeded its step "
-                f"budget inside the parser ({rec.get('trees')} partial trees yielded, {rec.get('adds')} states admitted; "
+                f"budget inside the parser ({rec.get('trees')} partial trees yielded, the largest with {rec.get('max_tree_size')} "
+                f"nodes where a tree of this history has at most {rec.get('size_bound')}; {rec.get('adds')} states admitted; "
                 f"budgets {MAX_PARTIAL_TREES}/{MAX_ADMISSIONS}) - the parser-termination defect of C06, reached through "
                 f"PacketForecaster.predict", False)
     if rec.get("kind") == "wallclock":
@@ -857,6 +890,7 @@ def main(tier: str) -> int:
                        dict(base_replay, history=e["h"], traceback=e.get("tb")))
         nh = r.get("nullable_head_in_open_rep", False)
         run.count("timeouts", ex.get("timeouts", 0))
+        run.count("prefix_parse_exponentially_ambiguous(skipped,not judged)", ex.get("too_ambiguous", 0))
         for rec in ex["mismatch"]:
             sig, what, corr = classify(rec, nh)
             if sig == "wallclock":
